@@ -24,10 +24,11 @@ type tcase struct {
 	Buf         int      `json:"read_buffer_size"`
 	Max         int      `json:"max_event_size"`
 	Cut         bool     `json:"cut_off_event_by_limit"`
-	Start       string   `json:"start"`         // reset | continue | tail (offsets_op)
-	StartOffset int      `json:"start_offset"`  // saved offset for start=continue (always a line boundary of parts[0])
-	Create      bool     `json:"notify_create"` // appends are announced by a create/rename-style notification (no write flag: refreshFile does not re-seek) instead of a write notification
-	Prev        bool     `json:"previous_job"`  // the worker first reads another file whose content is the unterminated "ab", and between the rounds is handed that file again, grown by an unterminated "c"
+	Start       string   `json:"start"`            // reset | continue | tail (offsets_op)
+	StartOffset int      `json:"start_offset"`     // saved offset for start=continue (always a line boundary of parts[0])
+	Create      bool     `json:"notify_create"`    // appends are announced by a create/rename-style notification (no write flag: refreshFile does not re-seek) instead of a write notification
+	Idle        bool     `json:"idle_maintenance"` // an idle maintenance round (close + reopen of the file at EOF) runs before every append
+	Prev        bool     `json:"previous_job"`     // the worker first reads another file whose content is the unterminated "ab", and between the rounds is handed that file again, grown by an unterminated "c"
 }
 
 // ---- reference model (boring) ----------------------------------------------
@@ -341,6 +342,10 @@ func (c *checker) check(tc *tcase) int {
 					}
 					r.Steps(1)
 				}
+				if tc.Idle {
+					e.rig.Maintain(j) // the job is done and at EOF: maintenance closes and reopens the descriptor
+					r.Steps(1)
+				}
 				c.write(part)
 				if err := e.rig.Notify(j, !tc.Create); err != nil {
 					panic(err)
@@ -619,6 +624,12 @@ func TestVerif(t *testing.T) {
 								tc.Create = !tc.Create
 								c.check(&tc)
 								tc.Create = !tc.Create
+							}
+							if len(parts) > 1 && s.kind == file.VerifStartReset && (b == 2 || b == 5 || thorough) {
+								// an idle maintenance round between the appends (the held-back tail must survive the reopen)
+								tc.Idle = true
+								c.check(&tc)
+								tc.Idle = false
 							}
 							if s.kind == file.VerifStartReset && (b == 1 || b == 8) {
 								// non-initial worker state: the same worker has just served another file
